@@ -14,6 +14,8 @@ PERMS = [
     {"A": "alpha", "B": "bravo", "C": "charlie", "D": "delta"},
     {"A": "zeta", "B": "mid", "C": "beta", "D": "alef"},
     {"A": "t9", "B": "t10", "C": "T1", "D": "_t"},
+    # names that are proper prefixes of one another (a selection by several names must not match by prefix)
+    {"A": "Map", "B": "Map_index", "C": "Ma", "D": "Map_index_2"},
 ]
 SUBMIT = {"slurm": "sbatch", "slurm_noacct": "sbatch", "sge": "qsub", "lsf": "bsub"}
 CANCEL = {"slurm": "scancel", "slurm_noacct": "scancel", "sge": "qdel", "lsf": "bkill"}
